@@ -51,7 +51,16 @@ def get(work, stage, tier, seed):
 
 
 # ---------------------------------------------------------------------------
+def has_meta(g):
+    return bool(g.get("rule_meta")) or any(a.get("meta") for _, alts in g["rules"] for a in alts) \
+        or any((len(t) > 4 and (t[4] or t[5])) for t in g["terms"])
+
+
 def corpus(tier, seed):
+    return [(gid, g, tags | ({"meta"} if has_meta(g) else set())) for gid, g, tags in corpus0(tier, seed)]
+
+
+def corpus0(tier, seed):
     """[(gid, grammar, tags)] -- curated shapes always, plus seeded slices of the
     enumerable family and seeded random grammars."""
     out = []
@@ -107,14 +116,14 @@ def stage_tables(work, tier, seed):
         for tt in ("lalr", "pager", "rn"):
             cases.append({"id": "%s|%s" % (gid, tt), "grammar": text,
                           "cfg": {"algo": "glr", "tt": tt, "raw": True, "ps": False, "pse": False},
-                          "meta": {"nodis": False}})
+                          "meta": {"nodis": False, "plain": False}})
     for path, text in repo_grammars(tier):
         gid = "repo:" + path
         gtext[gid] = text
         for tt in ("lalr", "pager", "rn"):
             cases.append({"id": "%s|%s" % (gid, tt), "grammar": text,
                           "cfg": {"algo": "glr", "tt": tt, "raw": True, "ps": False, "pse": False},
-                          "meta": {"nodis": False}})
+                          "meta": {"nodis": False, "plain": False}})
     pres = run.run_vdrive(work, "tables", cases)
     rs = table_shards(work, "tables", pres, "full")
     verdicts = [v for r in rs for v in r["verdicts"]]
@@ -216,7 +225,7 @@ def stage_lr(work, tier, seed):
                 inputs["%s#%d" % (cid, iid)] = [text_in, lex]
             gtext[cid] = text
             cases.append({"id": cid, "grammar": text, "cfg": {"algo": "lr", "tt": tt},
-                          "meta": {"nodis": bool(nod)}, "inputs": ins})
+                          "meta": {"nodis": bool(nod), "plain": "meta" not in tags}, "inputs": ins})
     pres = run.run_vdrive(work, "lr", cases)
     envs = [{"DUMPS": p + ".dumps.ndjson", "TRACES": p + ".traces.ndjson"} for p in pres
             if os.path.getsize(p + ".traces.ndjson") > 0]
@@ -260,7 +269,7 @@ def stage_mci_lr(work, tier, seed):
                 continue
             gtext[cid] = text
             cases.append({"id": cid, "grammar": text, "cfg": {"algo": "lr", "tt": tt},
-                          "meta": {"nodis": bool(nod)}})
+                          "meta": {"nodis": bool(nod), "plain": "meta" not in tags}})
     pres = run.run_vdrive(work, "mci_lr", cases, shards=4)
     # keep only conflict-free (i.e. really generated) LR tables
     allp = work.path("mci_lr", "all")
@@ -279,7 +288,55 @@ def stage_mci_lr(work, tier, seed):
             "samples": [dict(table=c["id"], grammar=c["grammar"]) for c in cases[:2]]}
 
 
-STAGES = {"tables": stage_tables, "lr": stage_lr, "mci_lr": stage_mci_lr}
+
+def stage_glr(work, tier, seed):
+    """Real GlrParser (LALR_RN table) and, for the same inputs, the real LR
+    parser (LALR_PAGER table); forests validated by TraceGLR."""
+    tab = get(work, "tables", tier, seed)
+    n_sent, n_mut = (5, 6) if tier == "quick" else (12, 16)
+    cases = []
+    inputs = {}
+    gtext = {}
+    for gid, g, tags in corpus(tier, seed):
+        text = G.render(g)
+        cid = "%s|%s" % (gid, "rn")
+        nod = tab["nodis"].get("%s|pager" % gid)
+        if nod is None:
+            continue
+        rng = random.Random("%s-glr-%d" % (cid, seed))
+        ins = []
+        iid = 0
+        for toks, kind in gen_inputs(g, rng, n_sent, n_mut):
+            if len(toks) > 9:
+                continue
+            iid += 1
+            text_in, lex = G.render_input(g, toks, rng, lead=rng.choice(["", "", " ", "\n"]),
+                                          trail=rng.choice(["", "", " ", "\n"]))
+            ins.append({"iid": iid, "text": text_in, "lex": lex, "partial": False, "meta": {"kind": kind}})
+            inputs["%s#%d" % (cid, iid)] = [text_in, lex]
+        gtext[cid] = text
+        cases.append({"id": cid, "grammar": text, "cfg": {"algo": "lr", "tt": "pager"},
+                      "glr": {"algo": "glr"}, "max_trees": 150,
+                      "meta": {"nodis": bool(nod), "plain": "meta" not in tags}, "inputs": ins})
+    pres = run.run_vdrive(work, "glr", cases)
+    envs = [{"DUMPS": p + ".dumps.ndjson", "TRACES": p + ".traces.ndjson"} for p in pres
+            if os.path.getsize(p + ".traces.ndjson") > 0]
+    rs = run.run_tlc_shards(work, "TraceGLR", "TraceGLR.cfg", envs)
+    verdicts = [v for r in rs for v in r["verdicts"]]
+    return {"verdicts": verdicts, "gtext": gtext, "inputs": inputs,
+            "states": sum(r["distinct"] for r in rs), "transitions": sum(r["states"] for r in rs),
+            "ntraces": len(verdicts), "nok": sum(1 for v in verdicts if v["mon"]["ok"]),
+            "nsent": sum(1 for v in verdicts if v["mon"]["sent"]),
+            "nambiguous": sum(1 for v in verdicts if v["mon"]["n"] > 1),
+            "ninscope": sum(1 for v in verdicts if v["mon"]["inscope"]),
+            "nlrglr": sum(1 for v in verdicts if v["mon"]["lrran"]),
+            "ncases": len(cases),
+            "samples": [dict(id=v["id"], iid=v["iid"], input=inputs.get("%s#%d" % (v["id"], v["iid"]), [""])[0],
+                             ok=v["mon"]["ok"], solutions=v["mon"]["n"], oracle_trees=v["mon"]["nexp"])
+                        for v in verdicts[:60:12]]}
+
+
+STAGES = {"tables": stage_tables, "lr": stage_lr, "mci_lr": stage_mci_lr, "glr": stage_glr}
 
 
 # ---------------------------------------------------------------------------
@@ -321,7 +378,7 @@ def coverage(prop, res, stage_names):
         cov["traces_validated_against_impl"] += r.get("ntraces", 0) + r.get("ndumps", 0)
         cov["samples"] += r.get("samples", [])[:3]
         cov["per_stage"][st] = {k: r[k] for k in ("ncases", "ndumps", "ntraces", "nok", "nsent", "nevents",
-                                                   "ntables", "maxlen", "wall") if k in r}
+                                                   "ntables", "maxlen", "wall", "nambiguous", "ninscope", "nlrglr") if k in r}
         cov["per_stage"][st]["divergences"] = len(r.get("divergences", []))
     cov["states"] = max(cov["states"], 1)
     cov["transitions"] = max(cov["transitions"], 1)
@@ -336,7 +393,7 @@ def replay_case(work, prop, payload):
     if stage == "tables":
         case = {"id": payload["id"], "grammar": payload["grammar"],
                 "cfg": {"algo": "glr", "tt": tt, "raw": True, "ps": False, "pse": False},
-                "meta": {"nodis": False}}
+                "meta": {"nodis": False, "plain": False}}
         pres = run.run_vdrive(work, "replay", [case], shards=1)
         rs = table_shards(work, "replay", pres, "full")
         v = [x for r in rs for x in r["verdicts"]]
@@ -347,7 +404,7 @@ def replay_case(work, prop, payload):
         # scope needs the raw conflict count of the same grammar / table type
         raw = {"id": payload["id"], "grammar": payload["grammar"],
                "cfg": {"algo": "glr", "tt": tt, "raw": True, "ps": False, "pse": False},
-               "meta": {"nodis": False}}
+               "meta": {"nodis": False, "plain": False}}
         pres = run.run_vdrive(work, "replay-raw", [raw], shards=1)
         rs = table_shards(work, "replay-raw", pres, "full")
         tv = [x for r in rs for x in r["verdicts"]]
@@ -355,7 +412,7 @@ def replay_case(work, prop, payload):
         ins = [{"iid": 1, "text": payload["input"], "lex": payload["lex"], "partial": p, "meta": {}}
                for p in (False, True)]
         case = {"id": payload["id"], "grammar": payload["grammar"], "cfg": {"algo": "lr", "tt": tt},
-                "meta": {"nodis": nod}, "inputs": ins}
+                "meta": {"nodis": nod, "plain": False}, "inputs": ins}
         pres = run.run_vdrive(work, "replay", [case], shards=1)
         rs = run.run_tlc_shards(work, "TraceLR", "TraceLR.cfg",
                                 [{"DUMPS": pres[0] + ".dumps.ndjson", "TRACES": pres[0] + ".traces.ndjson"}])
